@@ -293,9 +293,12 @@ pub fn hostile_frame(r: &mut Rng, victim: &Seen, window_hint: u32, allow_big: bo
             let mut pb = pick32(r, victim.tx_packet, window_hint);
             // the wire field is 32 bits wide, packet ids use the low 20: a value whose low bits
             // lie in the victim's window but which is not a packet id at all
-            if r.chance(0.15) {
+            // (decided from the values already drawn, about one ack frame in eight: the random
+            // stream, and with it every other hostile frame of every run, stays what it was)
+            if (fb ^ pb).wrapping_mul(0x9E37_79B1) >> 29 == 0 {
                 if let Some(h) = victim.tx_packet {
-                    pb = (near(r, h, window_hint) & 0xFFFFF) | ((1 + r.below(4095) as u32) << 20);
+                    let high = ((fb.wrapping_mul(0x85EB_CA6B) >> 20) | 1) & 0xFFF;
+                    pb = (h.wrapping_add(pb & 0x3F) & 0xFFFFF) | (high << 20);
                 }
             }
             let n = *r.pick(&[0usize, 1, 1, 2, 5, 40, 160]);
